@@ -713,7 +713,11 @@ def c09(tier, seed):
         g.run(rng.randrange(4, 14))
         kind = j % 4
         if kind == 3:
-            g.do('setidx f %d' % rng.choice(IDX)); g.do('deepcopy f r'); g.do('!sameobs f r'); g.do('obs r')
+            ci = rng.choice(IDX)
+            g.do('setidx f %d' % ci); g.do('deepcopy f r'); g.do('!sameobs f r'); g.do('obs r')
+            # the deep copy is a filtration of its own: adding to it and listing by index works on the copy alone
+            g.do('!snap f'); g.do('add r u880 [] -'); g.do('q r addedat %d' % ci); g.do('!filt r'); g.do('!same f')
+            g.do('add f u881 [] -'); g.do('q f addedat %d' % ci); g.do('q r contains u881'); g.do('!filt f')
         elif kind == 0:
             g.do('snap f r'); g.do('!samecontent f r')
         elif kind == 1:
